@@ -110,11 +110,23 @@ pub fn gen_stack(rng: &mut Rng) -> BuiltStack {
     let mut layers = raw::Layers::default();
     let boundary = layers.add(raw::Layer::new(0, "boundary"));
     let first_horiz = rng.bool();
-    let mut metals = Vec::new();
-    let mut rmetals = Vec::new();
+    let mut metals: Vec<MetalLayer> = Vec::new();
+    let mut rmetals: Vec<RMetal> = Vec::new();
     let mut metal_keys = Vec::new();
     let (mut lx, mut ly) = (1i64, 1i64);
     for i in 0..nmetals {
+        // alternate layers often share one track pattern (as metals 1/3/5 of the sample stack do): their track centres then coincide exactly
+        if i >= 2 && rng.chance(1, 3) {
+            let key = layers.add(raw::Layer::new(10 + i as i16, format!("met{}", i + 1)));
+            let mut ml = metals[i - 2].clone();
+            ml.name = format!("met{}", i + 1);
+            ml.raw = Some(key);
+            metals.push(ml);
+            let rm = rmetals[i - 2].clone();
+            rmetals.push(rm);
+            metal_keys.push(key);
+            continue;
+        }
         let horiz = (i % 2 == 0) == first_horiz;
         let unit = if horiz { py } else { px };
         let m = rng.range(1, 4);
@@ -331,7 +343,8 @@ pub fn gen_cell(rng: &mut Rng, b: &BuiltStack, with_insts: bool) -> RCell {
             let (x0, y0) = if fine { (rng.range(0, nx - sx), rng.range(0, ny - sy)) } else { (b.lx * rng.range(0, (nx - sx) / b.lx), b.ly * rng.range(0, (ny - sy) / b.ly)) };
             let bbox = (x0, y0, x0 + sx, y0 + sy);
             // keep a strict gap to every earlier instance in at least one axis
-            let ok = cell.insts.iter().all(|o| bbox.0 > o.bbox.2 || bbox.2 < o.bbox.0 || bbox.1 > o.bbox.3 || bbox.3 < o.bbox.1);
+            // no overlap with earlier instances; exact abutment is allowed (rows of cells abut, mirrored pairs share an origin)
+            let ok = cell.insts.iter().all(|o| bbox.0 >= o.bbox.2 || bbox.2 <= o.bbox.0 || bbox.1 >= o.bbox.3 || bbox.3 <= o.bbox.1);
             if ok {
                 cell.insts.push(RInst { name: format!("inst{}", k), sub, bbox, rh: rng.bool(), rv: rng.bool() });
             }
@@ -397,11 +410,28 @@ pub fn gen_cell(rng: &mut Rng, b: &BuiltStack, with_insts: bool) -> RCell {
             }
             used.insert((bot, tb, pb));
             used.insert((top, tt, ptp));
+            // a via stack: the same net continued one layer up at the same spot, where the layer above `top` shares `bot`'s track pattern
+            let mut stack_up: Option<(usize, i64)> = None;
+            if top + 1 < metals && format!("{:?}", r.metals[top + 1]) == format!("{:?}", r.metals[bot]) && rng.chance(2, 3) {
+                let up = top + 1;
+                let nup = cell.nperiods(r, up) as usize * r.metals[up].nsig();
+                if tb < nup {
+                    if let Some(pu) = find_piece(up, tb, r.metals[top].center(tt)) {
+                        if !used.contains(&(up, tb, pu)) {
+                            stack_up = Some((up, pu));
+                        }
+                    }
+                }
+            }
             // either orientation of the TrackCross
             if rng.bool() {
                 cell.assigns.push((format!("net{}", k), bot, tb, top, tt));
             } else {
                 cell.assigns.push((format!("net{}", k), top, tt, bot, tb));
+            }
+            if let Some((up, pu)) = stack_up {
+                used.insert((up, tb, pu));
+                cell.assigns.push((format!("net{}", k), top, tt, up, tb));
             }
         }
     }
